@@ -567,7 +567,7 @@ func runSSAEnv(fr *frame, args []value, env []value) value {
 		panic("interp requires ssa.BuilderMode to include InstantiateGenerics to execute generics")
 	}
 
-	fr.env = make(map[ssa.Value]value)
+	fr.env = make(map[ssa.Value]value, envSizeHint(fn))
 	fr.block = fn.Blocks[0]
 	fr.locals = make([]value, len(fn.Locals))
 	for i, l := range fn.Locals {
@@ -827,4 +827,23 @@ func iterPull(fr *frame, seq value, fn *ssa.Function) value {
 		return nil
 	}}
 	return tuple{next, stop}
+}
+
+var envHints = map[*ssa.Function]int{}
+
+// envSizeHint is the number of SSA values a frame of fn will hold.
+func envSizeHint(fn *ssa.Function) int {
+	if n, ok := envHints[fn]; ok {
+		return n
+	}
+	n := len(fn.Params) + len(fn.FreeVars) + len(fn.Locals)
+	for _, b := range fn.Blocks {
+		for _, in := range b.Instrs {
+			if _, ok := in.(ssa.Value); ok {
+				n++
+			}
+		}
+	}
+	envHints[fn] = n
+	return n
 }
